@@ -548,6 +548,15 @@ func (k msgServer) UpdateConsumer(goCtx context.Context, msg *types.MsgUpdateCon
 	}
 	previousSpawnTime := previousInitializationParameters.SpawnTime
 
+	if msg.InitializationParameters == nil {
+		// the chain id might have been changed above; the stored initial height has to match the
+		// (new) chain id, otherwise the consumer could neither be launched nor fall back cleanly
+		if err := types.ValidateInitialHeight(previousInitializationParameters.InitialHeight, chainId); err != nil {
+			return &resp, errorsmod.Wrapf(types.ErrInvalidMsgUpdateConsumer,
+				"initial height does not match the chain id; provide initialization parameters with a matching initial height: %s", err.Error())
+		}
+	}
+
 	if msg.InitializationParameters != nil {
 		if !k.IsConsumerPrelaunched(ctx, consumerId) {
 			return &resp, errorsmod.Wrap(types.ErrInvalidMsgUpdateConsumer,
